@@ -1,5 +1,5 @@
 CONSTANTS Majors = {0, 1, 2}
- Minors = {0, 1, 3}
+ Minors = {0, 1, 9, 10}
  Patches = {0, 7}
  SuffixNames = {"none", "both"}
 INIT Init
